@@ -670,6 +670,15 @@ func (w *LockWalker) call(fn *ssa.Function, r *Resolver, ins ssa.Instruction, cc
 					nr.Env[p] = r.Of(args[i])
 				}
 			}
+			// a bound-method wrapper (method value used as a callback): its
+			// free variable is the receiver bound where the method value was made
+			if closureMC != nil && cal == closureMC.Fn && cal.Parent() == nil {
+				for i, fv := range cal.FreeVars {
+					if i < len(closureMC.Bindings) {
+						nr.Env[fv] = src.Of(closureMC.Bindings[i])
+					}
+				}
+			}
 			if name, ok := w.mapMethod(cal); ok && len(args) > 0 {
 				w.ev(rec, LEvent{Kind: "mapop", What: pathName(r.Of(args[0])), Detail: name, Pos: pos, Fn: fname, Held: st.heldList(), Stack: stack})
 			}
